@@ -331,8 +331,11 @@ def load_programs(o, thorough):
     # (where the non-terminating code runs: under / above a protected call, a catch-and-continue loop, a coroutine)
     cfgs = ["Gen_LuaTimeout_Q.cfg", "Gen_LuaTimeout_QN.cfg"] + (["Gen_LuaTimeout_T2.cfg", "Gen_LuaTimeout_T3.cfg"] if thorough else [])
     cases = {}
-    for cfg in cfgs:
-        r = tlc("Gen_LuaTimeout", cfg, workers=1, timeout=900)
+    from concurrent.futures import ThreadPoolExecutor
+
+    with ThreadPoolExecutor(max_workers=4) as pool:
+        runs = list(pool.map(lambda cfg: tlc("Gen_LuaTimeout", cfg, workers=1, timeout=900), cfgs))
+    for cfg, r in zip(cfgs, runs):
         o.add_tlc(cfg[:-4], r)
         for c in r.cases:
             cases.setdefault(key(c), c)
@@ -495,13 +498,15 @@ def session_outcome(st, rec):
 
 
 def check_sessions(o, d: Path):
-    r = tlc("Gen_LuaSession", "Gen_LuaSession.cfg", workers=1)
+    from concurrent.futures import ThreadPoolExecutor
+
+    with ThreadPoolExecutor(max_workers=3) as pool:
+        r, dm, dm2 = pool.map(lambda cfg: tlc("Gen_LuaSession", cfg, workers=1, check=cfg.startswith("Gen")),
+                              ["Gen_LuaSession.cfg", "Demo_LuaSession_kept.cfg", "Demo_LuaSession_inband.cfg"])
     o.add_tlc("Gen_LuaSession (every invocation under its own limit)", r)
-    dm = tlc("Gen_LuaSession", "Demo_LuaSession_kept.cfg", workers=1, check=False)
     if not dm.invariant_violated:
         raise common.TLCError("Demo_LuaSession_kept lost its counterexample")
-    dm = tlc("Gen_LuaSession", "Demo_LuaSession_inband.cfg", workers=1, check=False)
-    if not dm.invariant_violated:
+    if not dm2.invariant_violated:
         raise common.TLCError("Demo_LuaSession_inband lost its counterexample")
     cases = r.cases
     res = run_sessions([c["sess"] for c in cases], d / "sessions")
@@ -578,9 +583,13 @@ def run(tier: str) -> int:
     if never:
         raise common.TLCError(f"actions never taken in the model-checking runs (vacuity): {never}")
     demos = {}
-    for name, inv in (("pcall_survives", True), ("loop_escape", True), ("pcall_loop", False), ("coroutine", False), ("hookctl", False), ("nested", False),
-                      ("nested_inband", True), ("nested_inband_loop", False), ("nested_inband_invloop", False)):
-        r = tlc("MC_LuaTimeout", f"Demo_LuaTimeout_{name}.cfg", workers=1, check=False)
+    demo_cfgs = (("pcall_survives", True), ("loop_escape", True), ("pcall_loop", False), ("coroutine", False), ("hookctl", False), ("nested", False),
+                 ("nested_inband", True), ("nested_inband_loop", False), ("nested_inband_invloop", False))
+    from concurrent.futures import ThreadPoolExecutor
+
+    with ThreadPoolExecutor(max_workers=5) as pool:   # single-program configurations, one TLC worker each: run side by side
+        demo_runs = list(pool.map(lambda nm: tlc("MC_LuaTimeout", f"Demo_LuaTimeout_{nm}.cfg", workers=1, check=False), [n for n, _ in demo_cfgs]))
+    for (name, inv), r in zip(demo_cfgs, demo_runs):
         bad = bool(r.invariant_violated) if inv else bool(re.search(r"Temporal propert(y|ies) .*violated", r.out))
         demos[name] = bad
         if not bad:
